@@ -3,7 +3,7 @@ import math as _math
 import re as _re
 import os as _os
 import z3
-from ..sym import SV, SB, Unsupported, ModelRaise, ctx, to_z3, is_num
+from ..sym import SV, SB, Unsupported, ModelRaise, ctx, to_z3, is_num, ite
 from .. import sym, theory
 from .frames import GFrame, GVec, RowArr, Space, _Generic, _filter_space, _same_space
 
@@ -247,7 +247,7 @@ class PD:
         if len(real) == 1:
             f = real[0]
             return f._clone() if not ignore_index else f.reset_index(drop=True)
-        raise Unsupported("pd.concat of several generic tables")
+        return concat_frames(real, ignore_index)
 
     @staticmethod
     def to_numeric(x, **k):
@@ -261,6 +261,54 @@ class PD:
 
     class Series:
         pass
+
+
+def concat_frames(parts, ignore_index):
+    """pd.concat of generic tables.  The generic row of the result is the generic row of one of the parts (symbolic
+    selector); `parts` keeps the originals so that contracts can speak about rows of different inputs."""
+    cx = ctx()
+    flat = []
+    for p in parts:
+        flat += getattr(p, "parts", [p])
+    cols = list(flat[0].cols)
+    for p in flat:
+        if list(p.cols) != cols:
+            raise Unsupported("concat of tables with different columns")
+    # parts that are views of one and the same table (same row terms): a row is in the result iff it is in one view
+    same_rows = all(all(_term_eq(p.row[c], flat[0].row[c]) for c in cols) for p in flat)
+    n = SV(cx.fresh("Ncat", "Int"))
+    total = flat[0].space.n
+    for p in flat[1:]:
+        total = total + p.space.n
+    cx.assume(n.t == to_z3(total))
+    sp = Space(n=n, tag="c")
+    if not ignore_index:
+        sp.label_id = next(__import__("vfw.models.frames", fromlist=["_space_counter"])._space_counter)
+    if same_rows:
+        r = GFrame(cols, flat[0].row, sp, z3.Or(*[p.present for p in flat]))
+        r.mult = sum((z3.If(p.present, 1, 0) for p in flat), z3.IntVal(0))
+        r.parts = flat
+        return r
+    sel = [cx.fresh("from_part", "Bool") for _ in flat[:-1]]
+    row = {}
+    for c in cols:
+        v = flat[-1].row[c]
+        for s, p in reversed(list(zip(sel, flat[:-1]))):
+            v = ite(SB(s), p.row[c], v) if not isinstance(v, str) else v
+        row[c] = v
+    pres = flat[-1].present
+    for s, p in reversed(list(zip(sel, flat[:-1]))):
+        pres = z3.If(s, p.present, pres)
+    r = GFrame(cols, row, sp, pres)
+    r.parts = flat
+    r.selectors = sel
+    return r
+
+
+def _term_eq(a, b):
+    if isinstance(a, SV) and isinstance(b, SV):
+        return a.t.eq(b.t)
+    return a is b or (not isinstance(a, SV) and not isinstance(b, SV) and a == b)
 
 
 def _mk_range(sp):
